@@ -86,7 +86,8 @@ Qed.
    events of a thread never report the same delivery. *)
 Definition reports_interrupt (ps : list (list core_op)) (ev : event) : Prop :=
   (exists d, ev_cop ps ev = Some (OUsleep d) /\ ev_ret ev = -1 /\ ev_k ev <> [3]) \/
-  (ev_cop ps ev = Some OYield /\ ev_ret ev <> 0).
+  (ev_cop ps ev = Some OYield /\ ev_ret ev <> 0) \/
+  (exists j, ev_cop ps ev = Some (OYieldTo j) /\ ev_k ev = [1] /\ ev_ret ev <> 0).
 
 Definition interrupt_at_most_once : Prop :=
   forall ps fuel i j e1 e2, ps <> [] -> NZ_progs ps ->
@@ -119,7 +120,7 @@ Proof.
   - subst e1. vm_compute. reflexivity.
   - subst e2. vm_compute. reflexivity.
   - discriminate.
-  - right. subst e1. vm_compute. split; [reflexivity|discriminate].
+  - right; left. subst e1. vm_compute. split; [reflexivity|discriminate].
   - left. exists 200. subst e2. vm_compute. split; [reflexivity|]. split; [reflexivity|discriminate].
   - subst e1 e2. vm_compute. reflexivity.
   - subst e1 e2. vm_compute. reflexivity.
@@ -155,4 +156,42 @@ Proof.
   pose proof (H f8_witness 100%nat e1 Hne Hnz Hin) as X.
   assert (Hs : ev_shut e1 = true) by (subst e1; vm_compute; reflexivity).
   specialize (X Hs). subst e1. vm_compute in X. apply X. reflexivity.
+Qed.
+
+(* ---- what does hold: a real sleep CONSUMES the interrupt it reports -------------------------------------
+   If a thread_usleep that actually slept (phase [1]) returns -1 for delivery number s, no later
+   event of that thread reports a delivery <= s: duplicates arise only from yields (thread_yield,
+   thread_yield_to, usleep(0)), which report without consuming. *)
+Lemma Pairs_rev progs tr : Pairs progs tr ->
+  forall i j e1 e2, nth_error (rev tr) i = Some e1 -> nth_error (rev tr) j = Some e2 -> (i < j)%nat ->
+    ev_tid e1 = ev_tid e2 -> clearing progs e1 -> reports progs e2 -> (ev_src e1 < ev_src e2)%nat.
+Proof.
+  induction tr as [|x r IH]; intros P i j e1 e2 H1 H2 Hij Ht Hc Hr.
+  - destruct i; discriminate.
+  - simpl in P. destruct P as (P & Hx). simpl in H1, H2.
+    assert (Hj : (j < length (rev r ++ [x]))%nat) by (apply nth_error_Some; congruence).
+    rewrite app_length, rev_length in Hj. simpl in Hj.
+    destruct (Nat.eq_dec j (length r)) as [->|Hne].
+    + rewrite nth_error_app2 in H2 by (rewrite rev_length; lia). rewrite rev_length, Nat.sub_diag in H2.
+      injection H2 as <-. rewrite nth_error_app1 in H1 by (rewrite rev_length; lia).
+      apply Hx; auto. apply in_rev. eapply nth_error_In; eauto.
+    + rewrite nth_error_app1 in H1 by (rewrite rev_length; lia).
+      rewrite nth_error_app1 in H2 by (rewrite rev_length; lia).
+      eapply IH; eauto.
+Qed.
+
+Lemma sleep_consumes_interrupt_lemma : forall ps fuel i j e1 e2 d, ps <> [] -> NZ_progs ps ->
+  nth_error (run_trace fuel ps) i = Some e1 -> nth_error (run_trace fuel ps) j = Some e2 -> (i < j)%nat ->
+  ev_tid e1 = ev_tid e2 ->
+  ev_cop ps e1 = Some (OUsleep d) -> ev_k e1 = [1] -> ev_ret e1 = -1 ->
+  reports_interrupt ps e2 -> (ev_src e1 < ev_src e2)%nat.
+Proof.
+  intros ps fuel i j e1 e2 d Hne Hnz H1 H2 Hij Ht Hop Hk Hr Hrep.
+  destruct (run_GI_TI fuel ps Hne Hnz) as (_ & (_ & P)).
+  eapply (Pairs_rev (core_progs ps)); eauto.
+  - split; [exists d; apply ev_op_core; exact Hop|auto].
+  - destruct Hrep as [(d' & A & B & C)|[(A & B)|(j' & A & B & C)]].
+    + left. split; [exists d'; apply ev_op_core; exact A|auto].
+    + right; left. split; [apply ev_op_core; exact A|exact B].
+    + right; right. split; [exists j'; apply ev_op_core; exact A|auto].
 Qed.
